@@ -76,6 +76,12 @@ PROPS['C17'] = dict(
     explanation='CBMC proves the C classifier against the documented si_code table for every (si_code, si_signo); Kani proves Origin::extract, compiled together with the real extract.c, reports signal, cause and process exactly as the kernel-documented meaning, for all inputs.')
 import replay as _R
 REPLAYERS['C11.PENDING-ONLY-IF-ARMED'] = _R.replay_c11_armed
+REPLAYERS['C15.VALUE'] = _R.replay_c15_value
+REPLAYERS['C13.DELIVERY-NONBLOCKING'] = _R.replay_c13
+REPLAYERS['C13.REJECT-INVALID'] = _R.replay_c13
+REPLAYERS['C15.SET'] = _R.replay_c15_set
+for _o in ('C15.STATUS', 'C15.EXIT-IFF', 'C15.UNDERSCORE', 'C15.ONLY-EXIT', 'C15.NOOP'):
+    REPLAYERS[_o] = _R.replay_c15_shutdown
 for _o in ('C17.RS-SIGNAL', 'C17.RS-TABLE', 'C17.RS-PROCESS-IFF', 'C17.RS-PID'):
     REPLAYERS[_o] = _R.replay_c17_rs
 REPLAYERS['C16.KIND'] = _R.replay_c16_kind
@@ -360,6 +366,13 @@ _MAPRW = [(_RS, r'\A', '#![cfg_attr(kani, feature(allocator_api))]\n', 1),
           (_RS, r'(?m)^use std::collections::BTreeMap;', '#[cfg(not(kani))] use std::collections::BTreeMap;\n#[cfg(kani)] use verif_kani::OrdMap as BTreeMap;', 0)]
 _SHAPE_S = 'bounded(registry state: <= 2 signals, <= 1 action each, symbolic ids/next_id/signal numbers; inductive step, not a history)'
 _SHAPE_L = 'bounded(registry state: 2 signals with <= 2 and <= 1 actions, symbolic ids/next_id/signal numbers; inductive step)'
+UNITS['registry_hist'] = dict(
+    name='registry_hist', engine='kani', crate='signal-hook-registry', inject=[('signal-hook-registry/src/lib.rs', K + 'registry_hist.rs'), ('signal-hook-registry/src/half_lock.rs', K + 'half_lock_contract.rs', 'verif_contract', 'pub(crate)')], flags=FFI,
+    rewrite=_MAPRW, scan=[K + 'libc_model.rs'], timeout={'quick': 1800, 'thorough': 3600},
+    harnesses={
+        'c02_hist_order': dict(props=['C02', 'C05', 'C04'], kind='bounded', bound='bounded(one history shape: 3 actions on one symbolic signal, symbolic choice of the removed one)'),
+        'c05_hist_two_signals': dict(props=['C05', 'C02', 'C04'], kind='bounded', bound='bounded(one history shape: two symbolic signals)'),
+    })
 # experiment: the same harnesses on the REAL std HashMap/BTreeMap (no map rewrite)
 UNITS['registry_real'] = dict(
     name='registry_real', engine='kani', crate='signal-hook-registry', inject=[('signal-hook-registry/src/lib.rs', K + 'registry.rs'), ('signal-hook-registry/src/half_lock.rs', K + 'half_lock_contract.rs', 'verif_contract', 'pub(crate)')], flags=FFI,
@@ -435,3 +448,17 @@ PROPS['C05'] = dict(level='other', units=['registry'], trusted=_TR,
 PROPS['C14'] = dict(level='proof', units=['registry', 'flag', 'pipe', 'backend_c12', 'backend_small_c12'], trusted=_TR + L('A12'),
     technique='checks-before-effects contracts on every checked entry point over all c_int, Kani/CBMC',
     explanation='Registry entry points refuse forbidden numbers before touching global state; front-ends (flags, pipe, iterator) delegate to them with the same number (C15.SET-SIG, C13.REGISTER-ONCE, C12.REGISTER-ONCE/C14.ITER-*); OS refusals propagate without publishing.')
+
+FHI = 'registry lib.rs (public mutators + handler, history): '
+obl('C02.HIST-ORDER', FHI + 'register_sigaction, unregister, handler', 'register x3, remove any one, register again: survivors run in registration order, newest last', kind='bounded(history shape)')
+obl('C02.HIST-ONLY-SIG', FHI + 'handler', 'other signals\' actions never run', kind='bounded(history shape)')
+obl('C05.HIST-ID-FRESH', FHI + 'register_sigaction', 'ids pairwise distinct across the history, also after removals', kind='bounded(history shape)')
+obl('C05.HIST-UNREG', FHI + 'unregister', 'true for live, false for stale', kind='bounded(history shape)')
+obl('C05.HIST-UNREG-SIGNAL', FHI + 'unregister_signal', 'true iff the signal had actions', kind='bounded(history shape)')
+obl('C05.HIST-INDEPENDENT', FHI + 'unregister_signal', 'other signals unaffected', kind='bounded(history shape)')
+obl('C05.HIST-INSTALL-ONCE', FHI + 'register_sigaction', 'query+install once per signal over the whole history', kind='bounded(history shape)')
+obl('C04.HIST-STILL-CHAINED', FHI + 'handler', 'previous handler chained once per delivery even with zero actions', kind='bounded(history shape)', tier='thorough')
+PROPS['C02']['units'] = ['registry', 'registry_hist']
+PROPS['C05']['units'] = ['registry', 'registry_hist']
+PROPS['C04']['units'] = ['registry']
+PROPS['C04']['units_thorough'] = ['registry_hist']
